@@ -141,6 +141,11 @@ def lift(t):
                 return fcosh(rec(ch[0]))
         if kk == z3.Z3_OP_SELECT:
             return XV(e)
+        if kk == z3.Z3_OP_ITE:
+            # the condition is evaluated on the finite payloads (comparisons of program inputs)
+            c = ch[0]
+            a, b = rec(ch[1]), rec(ch[2])
+            return XV(z3.If(c, a.val, b.val), z3.If(c, a.nan, b.nan), z3.If(c, a.pinf, b.pinf), z3.If(c, a.ninf, b.ninf))
         raise ValueError("special-value model: unsupported operator %s" % d.name())
     return rec(t)
 
